@@ -2,6 +2,7 @@ pub mod packed;
 pub mod prefilter;
 pub mod repr;
 pub mod semantic;
+pub mod stream;
 
 use crate::runner::PropDef;
 
@@ -19,6 +20,9 @@ pub fn all() -> Vec<&'static PropDef> {
         &prefilter::C10,
         &packed::C06,
         &packed::C15,
+        &stream::C07,
+        &stream::C08,
+        &stream::C18,
     ]
 }
 
